@@ -210,7 +210,7 @@ def run_shard(mod, tier, seed, shard, nshards, out_path):
         if hasattr(mod, "selfcheck") and shard == 0:
             mod.selfcheck()
         # 1. committed corpus (regression tier), shard 0 only
-        if shard == 0:
+        if shard == 0 and not os.environ.get("VERIF_NO_CORPUS"):   # (switch used by the sensitivity tooling only)
             cdir = VERIF / "corpus" / mod.ID
             if cdir.is_dir():
                 for p in sorted(cdir.glob("*.json")):
@@ -277,6 +277,73 @@ def run_shard(mod, tier, seed, shard, nshards, out_path):
     finish()
 
 
+def run_fuzz_shard(pid, tier, seed, shard, nshards, out_path, include, runs):
+    """Coverage-guided phase (atheris / libFuzzer driving the property's Hypothesis strategy through
+    ``fuzz_one_input``): the bytes are the choice sequence of the strategy, so every input is a case the strategy can
+    generate and a failure is an ordinary replayable JSON case.  Must run in a fresh process: the modules named in
+    `include` are instrumented at import."""
+    setup_paths()
+    import atheris
+
+    with atheris.instrument_imports(include=list(include), enable_loader_override=False):
+        import mici  # noqa: F401
+        for name in include:
+            importlib.import_module(name)
+    from hypothesis import HealthCheck, given, settings
+
+    mod = importlib.import_module(f"vf.props.{pid.lower()}")
+    col = Collector(mod, load_known())
+    status = {"violation": None, "harness_error": None}
+    t0 = time.time()
+    count = [0]
+
+    def finish(code=0):
+        out = col.to_json()
+        out.update(status)
+        out["wall_s"] = time.time() - t0
+        out["extra"] = dict(out["extra"], fuzz_executions=count[0], fuzz_evaluations=col.evaluations,
+                            fuzz_nontrivial=len(col.nontrivial_hashes))
+        Path(out_path).write_text(json.dumps(out, default=_json_default))
+        sys.stdout.flush()
+        os._exit(code)   # libFuzzer never returns control; atexit handlers do not run under atheris
+
+    @settings(database=None, deadline=None, suppress_health_check=list(HealthCheck))
+    @given(mod.strategy(tier))
+    def test(case):
+        try:
+            unknown = col.run(case)
+        except HarnessError as e:
+            status["harness_error"] = str(e)[-4000:]
+            finish()
+        if unknown:
+            status["violation"] = {"case": col.last_fail[0], "failures": col.last_fail[1], "origin": "coverage-guided"}
+            finish()
+
+    def one(data):
+        count[0] += 1
+        try:
+            test.hypothesis.fuzz_one_input(data)
+        except SystemExit:
+            raise
+        except BaseException as e:  # noqa: BLE001
+            status["harness_error"] = "".join(traceback.format_exception(e))[-4000:]
+            finish()
+        if count[0] >= runs:
+            finish()
+
+    import numpy as np
+
+    cdir = Path(out_path).parent / f"fuzz-corpus-{shard}"
+    cdir.mkdir(exist_ok=True)
+    r = np.random.default_rng([seed, shard, 77])
+    for i in range(48):   # Hypothesis rejects buffers that are too short for a case: start from long random inputs
+        (cdir / f"seed{i}").write_bytes(r.bytes(int(r.integers(256, 4096))))
+    atheris.Setup([sys.argv[0], "-max_len=4096", "-len_control=0", f"-seed={seed * 1000 + shard + 1}",
+                   "-rss_limit_mb=4096", "-timeout=120", "-print_final_stats=0", str(cdir)], one)
+    atheris.Fuzz()
+    finish()
+
+
 def write_replay(pid, violation):
     rdir = VERIF / "replays"
     rdir.mkdir(exist_ok=True)
@@ -332,6 +399,9 @@ def main(argv):
     ap.add_argument("--out")
     ap.add_argument("--shards", type=int, default=N_SHARDS_DEFAULT)
     ap.add_argument("--examples", type=int)
+    ap.add_argument("--fuzz-shard")
+    ap.add_argument("--fuzz-runs", type=int, default=0)
+    ap.add_argument("--fuzz-include", default="")
     args = ap.parse_args(argv)
     seed = int(os.environ.get("VERIF_SEED", "1") or "1")
     pid = args.pid.upper()
@@ -342,6 +412,15 @@ def main(argv):
 
     for v in ("OMP_NUM_THREADS", "OPENBLAS_NUM_THREADS", "MKL_NUM_THREADS"):
         os.environ.setdefault(v, "1")
+
+    if args.fuzz_shard is not None:
+        shard, nshards = (int(x) for x in args.fuzz_shard.split("/"))
+        try:
+            run_fuzz_shard(pid, args.tier, seed, shard, nshards, args.out, args.fuzz_include.split(","), args.fuzz_runs)
+        except Exception:  # noqa: BLE001
+            traceback.print_exc()
+            return 2
+        return 0
 
     try:
         mod = load_module(pid)
@@ -420,6 +499,59 @@ def main(argv):
             violations.append(d["violation"])
         if d["harness_error"]:
             herrors.append(f"shard {s}: {d['harness_error']}")
+    # coverage-guided phase (thorough tier of modules that opt in, when atheris is installed)
+    fz = getattr(mod, "FUZZ", None)
+    fuzz_runs = (fz or {}).get(args.tier, 0)
+    if os.environ.get("VERIF_FUZZ_RUNS"):
+        fuzz_runs = int(os.environ["VERIF_FUZZ_RUNS"]) if fz else 0
+    merged["extra"]["fuzz_executions"] = 0
+    if fuzz_runs and not violations and not herrors:
+        try:
+            import atheris  # noqa: F401
+            have = True
+        except Exception:  # noqa: BLE001
+            have = False
+        if not have:
+            merged["extra"]["fuzz_skipped_atheris_not_installed"] = 1
+        else:
+            fprocs = []
+            per = max(1, fuzz_runs // nshards)
+            for s_ in range(nshards):
+                out = work / f"fuzz{s_}.json"
+                cmd = [sys.executable, str(VERIF / "check"), pid, "--tier", args.tier, "--fuzz-shard", f"{s_}/{nshards}",
+                       "--fuzz-runs", str(per), "--fuzz-include", ",".join(fz["include"]), "--out", str(out)]
+                log = open(work / f"fuzz{s_}.log", "w")
+                fprocs.append((subprocess.Popen(cmd, stdout=log, stderr=subprocess.STDOUT, env=dict(os.environ)), out, log))
+            import re
+
+            cov = []
+            for s_, (p, out, log) in enumerate(fprocs):
+                p.wait()
+                log.close()
+                txt = (work / f"fuzz{s_}.log").read_text(errors="replace")
+                m = re.findall(r"cov: (\d+) ft: (\d+)", txt)
+                if m:
+                    cov.append(tuple(int(x) for x in m[-1]))
+                if not out.exists():
+                    herrors.append(f"fuzz shard {s_} died (exit {p.returncode}): " + txt[-1500:])
+                    continue
+                d = json.loads(out.read_text())
+                merged["evaluations"] += d["evaluations"]
+                merged["discarded"] += d["discarded"]
+                merged["nontrivial_hashes"].update(d["nontrivial_hashes"])
+                for k, v in d["classes"].items():
+                    merged["classes"][k] = merged["classes"].get(k, 0) + v
+                for k, v in d["known_hits"].items():
+                    merged["known_hits"][k] = merged["known_hits"].get(k, 0) + v
+                for k, v in d["extra"].items():
+                    merged["extra"][k] = merged["extra"].get(k, 0) + v
+                if d["violation"]:
+                    violations.append(d["violation"])
+                if d["harness_error"]:
+                    herrors.append(f"fuzz shard {s_}: {d['harness_error']}")
+            if cov:
+                merged["extra"]["fuzz_edge_coverage_max"] = max(c[0] for c in cov)
+                merged["extra"]["fuzz_features_max"] = max(c[1] for c in cov)
     wall = time.time() - t0
     import shutil
 
